@@ -15,7 +15,8 @@
 (*                 decode (RV32.tla) to the *same* base instruction as the    *)
 (*                 input instruction at that site - same operation, same      *)
 (*                 registers, so `jal x5` may not become c.jal - with the     *)
-(*                 displacement S - P of the relaxed layout; absolute and     *)
+(*                 displacement S - P of the relaxed layout, and with the     *)
+(*                 same Exec effect (link register!); absolute and            *)
 (*                 %hi/%lo references are judged by Reloc.tla (S, P of the    *)
 (*                 relaxed layout)                                            *)
 (*   failures      a link that fails in do_relaxations, or at a relocation    *)
@@ -77,9 +78,29 @@ TransferOK(r, after) ==
        /\ new.rd = old.rd /\ new.rs1 = old.rs1 /\ new.rs2 = old.rs2
        /\ new.imm = RelDisp(dst, r)
        /\ new.len = dst.rels[r].size
+\* ... and executing it (RV32.tla Exec) has the effect of executing the input instruction with that target: same next
+\* pc, same memory, every register alike except that the link register of the input instruction (if it links) holds
+\* the address behind the instruction, which is 2 or 4 bytes long.  So c.jal for `jal x0` (ra clobbered) or c.j for
+\* `jal ra` (nothing linked) is refused whatever the target.
+ExecEffectOK(r, after) ==
+    LET newi == RV!Decode(SiteBytes(after, r))
+        old == [OrigInsn(r) EXCEPT !.imm = RelDisp(dst, r)]
+        pc == RV!W4(RelP(dst, r))
+        s == [RV!BaseState(3, 0) EXCEPT !.pc = pc] IN
+    \E tn \in {RV!Exec(s, newi)} : \E to \in {RV!Exec(s, old)} :
+        /\ tn.st = "ok" /\ to.st = "ok"
+        /\ tn.pc = to.pc /\ tn.mem = to.mem
+        /\ \A k \in 2..32 :
+              \/ tn.x[k] = to.x[k]
+              \/ /\ k - 1 = old.rd
+                 /\ tn.x[k] = RV!WAdd(pc, RV!W4(newi.len)) /\ to.x[k] = RV!WAdd(pc, RV!W4(old.len))
+\* a shrunk site holds the compressed instruction the shrink rule of Relax.tla names for its relocation type
+ShortFormOK(r, after) ==
+    LET m == pre.map[r] IN
+    (pre.on /\ m \in pre.K) => RV!Decode(SiteBytes(after, r)).mn = ShortInsn(Before.rels[m].type)
 ValueOKR(r, before, after) ==
     LET t == dst.rels[r].type IN
-    IF t \in TransferTypes THEN TransferOK(r, after)
+    IF t \in TransferTypes THEN TransferOK(r, after) /\ ExecEffectOK(r, after) /\ ShortFormOK(r, after)
     ELSE IF RelocModelled(t)
          THEN PatchOKW(ArchR, t, SiteBytes(before, r), SiteBytes(after, r), RS(r), RA(r), RP(r))
          ELSE TRUE
